@@ -164,6 +164,11 @@ pub fn run_script_file(path: &str) -> i32 {
                     s.tui.maintain();
                     events::verif::inject(KeyEvent { code, modifiers });
                     let quit = s.tui.handle_event();
+                    if quit {
+                        // the real loop leaves before drawing or clocking
+                        libverif::set_fuel(None);
+                        return quit;
+                    }
                     phase = "draw";
                     let area = Rect::new(0, 0, w, h);
                     let mut buf = Buffer::empty(area);
